@@ -238,6 +238,20 @@ class StmtMixin:
                 self.emit(Obligation("%s/%s/cut[%s:%s]" % (self.con.qualname, st.pathname(), name, label), st.pc, f, kind="cut"))
                 st.assume(f)
             return [Outcome("normal", st)]
+        if isinstance(s.value, ast.Yield):
+            if s.value.value is None:
+                raise Unsupported("bare yield", s)
+
+            def cont(v, st2):
+                y = st2.env["_yielded"]
+                v = self.as_value(v, s) if isinstance(v.ty, TObj) else v
+                v = self.coerce(v, y.ty.elem, s, "yielded value")
+                one = z3.Const(fresh_name("yielded"), sort_of(y.ty))
+                st2.assume(z3.And(l_len(one) == 1, l_at(one, 0) == v.t))
+                st2.env["_yielded"] = self.list_concat(y, Val(y.ty, one), st2)
+                return [Outcome("normal", st2)]
+
+            return self.root_eval(s.value.value, st, s, cont)
         return self.root_eval(s.value, st, s, lambda v, st2: [Outcome("normal", st2)])
 
     def root_eval(self, valnode, st, s, cont, hint=None):
@@ -278,7 +292,7 @@ class StmtMixin:
                 env2[recv_name] = Val(recv.ty, rec)
                 for label, f in spec["ensures"](S.Ctx(env2, old=pre, result=None)):
                     rs.assume(f)
-                if recv_node is not None:
+                if recv_node is not None and isinstance(recv_node, (ast.Name, ast.Attribute, ast.Subscript)):
                     hz = self.hz
                     self.hz = []
                     self.assign_to(recv_node, env2[recv_name], rs, check_owned=False)
@@ -312,6 +326,8 @@ class StmtMixin:
                 return self.e_List(node, st, hint=hint if isinstance(hint, TList) else None)
             if isinstance(node, ast.Dict):
                 return self.e_Dict(node, st, hint=hint if isinstance(hint, TDict) else None)
+            if isinstance(node, ast.DictComp):
+                return self.e_DictComp(node, st, hint=hint if isinstance(hint, TDict) else None)
         return self.eval(node, st)
 
     def target_hint(self, target, st):
@@ -670,6 +686,8 @@ class StmtMixin:
             if g:
                 nodes += list(ast.walk(ast.Module(body=g, type_ignores=[])))
         for n in nodes:
+            if isinstance(n, ast.Yield):
+                paths.add(("_yielded",))
             if isinstance(n, ast.Assign):
                 for t in n.targets:
                     add_target(t)
